@@ -532,8 +532,17 @@ inline void HMHarness::check(CheckCtx& c) {
       const OpRec& y = h.ops[yields[a]];
       for (size_t b = a + 1; b < yields.size(); b++) {
         const OpRec& z = h.ops[yields[b]];
-        if (y.a == z.a && y.b == z.b)
-          return c.fail("iterator-duplicate", "traversal yielded element (%ld,%ld) twice", (long)y.a, (long)y.b);
+        if (y.a == z.a && y.b == z.b) {
+          // sets: the node identity can recur when lock_free_ref_count recycles the node for a re-insertion
+          // of the same key during the traversal ("no key twice unless re-inserted")
+          bool reinserted = false;
+          if (!is_map)
+            for (int i = 0; i < h.n; i++) {
+              const OpRec& o = h.ops[i];
+              if (o.status == 1 && o.a == y.a && o.kind == OP_EMPLACE_OR_GET && o.r0 == y.b && !h.precedes(o, T) && !h.precedes(z, o)) reinserted = true;
+            }
+          if (!reinserted) return c.fail("iterator-duplicate", "traversal yielded element (%ld,%ld) twice", (long)y.a, (long)y.b);
+        }
       }
       int I = inserted_by((int)y.a, (int)y.b, y);
       if (I < 0) return c.fail("iterator-invented", "traversal yielded (%ld,%ld) which was never inserted", (long)y.a, (long)y.b);
